@@ -566,6 +566,30 @@ def _judge_sorted_run(spec, h, rec, labels, stats):
         except Skip:
             stats["skipped"] += 1
 
+    rt = spec.get("retune")
+    if rt and spec["constraints"]:
+        from acnportal.acnsim import Current
+
+        state = {"done": False}
+
+        def observer(algo, active):
+            # the operator looks at the site through the interface and then changes one limit -
+            # within the period whose allocation follows
+            t = algo.interface.current_time
+            if state["done"] or t < rt["t"]:
+                return
+            state["done"] = True
+            j = rt["index"] % len(spec["constraints"])
+            c = spec["constraints"][j]
+            algo.interface.infrastructure_info()
+            algo.interface.get_constraints()
+            for sid_ in ids[:2]:
+                algo.interface.max_pilot_signal(sid_), algo.interface.remaining_amp_periods
+            h.net.update_constraint(c["name"], Current(dict(c["coeffs"])), L[j] * rt["factor"])
+            L[j] = L[j] * rt["factor"]
+            labels.add("limit_changed_mid_run_after_a_look")
+
+        h.scheduler.observer = observer
     h.scheduler.post = post
     sc.run_sim(h)
 
@@ -625,6 +649,8 @@ def sim_cases(draw):
             s["est_departure"] = s["arrival"] + 1
     # distinct arrivals / estimates where possible keep key ties rare; ties are skipped, not judged
     spec["second_site"] = draw(st.integers(0, 2)) == 0
+    if draw(st.integers(0, 2)) == 0:
+        spec["retune"] = {"t": draw(st.integers(0, 6)), "index": draw(st.integers(0, 5)), "factor": draw(st.sampled_from([0.5, 0.7, 1.5]))}
     return spec
 
 
